@@ -383,7 +383,14 @@ def check_C09(tier, seed, t0):
                         'set still strictly increasing and duplicate-free, live values == visible values; strong for single-element insertion and for the source; '
                         'the history continues on the same sets; non-trivial = >=3 mutating ops with a fault that fired', True, crash_class_codes=[31])
     part4.coverage['exhaustive'] = False
-    return finish('C09', tier, seed, 'fault_enumeration', [part1, part2, part3, part4], FAULT_RULE,
+    ssn = [n for n, _ in C.SS_CONFIGS if ('_tr' in n or '_ntr' in n) and 'real' not in n]
+    part5 = interp_part('C09', 'smallset_histories_with_faults', ss_jobs(ssn, hc, hl), seed,
+                        'SmallSet histories in which insert/emplace/range insert/initializer-list insert/copy assignment/merge run with the k-th fault point '
+                        '(k = 0..7) throwing, across the inline/large transition: every visible element alive, no equivalent elements twice, size() equals the '
+                        'number of elements visited, live values == visible values (nothing dropped from view), contents unchanged for single insertions; '
+                        'non-trivial = >=3 mutating ops with a fault that fired', True, crash_class_codes=[30])
+    part5.coverage['exhaustive'] = False
+    return finish('C09', tier, seed, 'fault_enumeration', [part1, part2, part3, part4, part5], FAULT_RULE,
                   ASSUME_COMMON + ['single faults only; element moves are noexcept (throwing moves are not demanded)', 'strong guarantee is not demanded for single-pass input ranges'], t0)
 
 
